@@ -276,7 +276,8 @@ def run_property(prop_name, tier):
                 violations.append(x)
 
     # 3. the search
-    specs = prop.plan(tier)
+    # the small enumerated lanes go first, so that they are never the ones a loaded machine's time budget cuts off
+    specs = sorted(prop.plan(tier), key=lambda s: 'examples' in s)
     nproc = min(int(os.environ.get('VF_PROCS', '16')), max(1, len(specs)))
     args = [(prop_name, tier, s, deadline) for s in specs]
     if nproc == 1 and os.environ.get('VF_INPROCESS') == '1':
